@@ -213,6 +213,10 @@ def session(lines, key, new, path, consumer, observe=True):
         lines.append(f"s {key}.{i} end {consumer[0]} {consumer[1]}")
 
 
+SIGFAM = {"into": "into", "into_t": "into", "as_str": "str", "display": "str", "debug": "str", "into_str": "str",
+          "next": "next", "next_back": "next_back"}
+
+
 def truncation_probes(reals, r, p, cap=6):
     """try_from arguments d +/- 2^k (k = 8, 16, 32, 64 below the repr width): values that a truncating cast or a
     comparison in a narrower type would confuse with the discriminant d"""
@@ -227,15 +231,15 @@ def truncation_probes(reals, r, p, cap=6):
                     seen.add(x)
                     m = p.to_model(x)
                     for f in ("try_from", "try_from_t"):
-                        L.append(f"s {f}:t{k}:{p.to_model(d)}:{'+' if x > d else '-'} call {f} {p.bits(x)}")
+                        L.append(f"s tf:t{k}:{p.to_model(d)}:{'+' if x > d else '-'} call {f} {p.bits(x)}")
     return L
 
 
-def make_script(vs, r, probes_model, rng, level="std", str_cap=48, pairs_cap=36, calls=True):
+def make_script(vs, r, probes_model, rng, level="std", str_cap=48, pairs_cap=36, calls=True, pow2=False):
     """vs: variants (with real); probes_model: try_from arguments in model coordinates.
     level: "full" = every covering path of the iterator graph, "std" = a seeded sample,
            "calls" = pure calls only"""
-    p = prim.Proj(r)
+    p = prim.Proj(r, pow2)
     bits = lambda x: p.bits(x)
     vs = sorted(vs, key=lambda v: v["real"])      # scripts do not depend on the declaration order
     model = {v["real"]: p.to_model(v["real"]) for v in vs}
@@ -249,12 +253,12 @@ def make_script(vs, r, probes_model, rng, level="std", str_cap=48, pairs_cap=36,
             # far representative: take the real value in the middle of that gap
             x = next(fx for fx in p.far_reals() if p.to_model(fx) == m)
         for f in ("try_from", "try_from_t"):
-            L.append(f"s {f}:{m} call {f} {bits(x)}")
+            L.append(f"s tf:{m} call {f} {bits(x)}")          # fn and trait form share the sig: they must agree
     if calls:
         L += truncation_probes(reals, r, p)
     for x in (reals if calls else []):
         for f in ("into", "into_t", "as_str", "display", "debug", "into_str", "next", "next_back"):
-            L.append(f"s {f}:{model[x]} call {f} {bits(x)}")
+            L.append(f"s {SIGFAM[f]}:{model[x]} call {f} {bits(x)}")
     if calls:
         L.append("s min call min")
         L.append("s max call max")
@@ -262,7 +266,7 @@ def make_script(vs, r, probes_model, rng, level="std", str_cap=48, pairs_cap=36,
     for s in (string_probes(vs, rng, str_cap) if calls else []):
         cp = " ".join(str(ord(c)) for c in s)
         for f in ("from_str", "from_str_t"):
-            L.append(f"s {f}:{h(s)} call {f} {cp}".rstrip() if cp else f"s {f}:{h(s)} call {f}")
+            L.append(f"s fs:{h(s)} call {f} {cp}".rstrip() if cp else f"s fs:{h(s)} call {f}")
     if level == "calls":
         return L
     # iterator sessions
@@ -645,6 +649,40 @@ class Plan:
             twins = [self.new_case(r, vs, cfg, script, f"ctxlarge{len(reals)}:{lab}:{c}", ctx=c) for c in ("plain", "no_prelude", "all_types", "all_traits")]
             self.add_group("C16", twins, "contexts")
 
+    # -- F2: discriminants that are far apart by (almost) a power of two: a span computed in a narrower type aliases
+    #        them with a gapless enum  (span = count - 1  modulo 2^k)
+    def alias_shapes(self):
+        rng = self.rng
+        shapes = []
+        for r, k in (("u64", 32), ("i64", 32), ("u128", 32), ("isize", 32), ("u32", 16), ("i32", 16), ("u32", 8), ("u16", 8), ("i64", 16), ("i128", 8)):
+            for m, base in ((3, 0), (4, 5), (2, 1)):
+                if prim.signed(r) and rng.random() < 0.5:
+                    base = -base - m
+                reals = [base + i for i in range(m - 1)] + [base + (1 << k) + (m - 1)]
+                if reals[-1] <= prim.dmax(r):
+                    shapes.append((r, reals))
+        # spans at the widths of machine words (bit-set / bitmap fast paths): max - min in {31..33, 63..65, 127..129, 255}
+        for span in (31, 32, 33, 63, 64, 65, 127, 128, 129, 255):
+            for r in ("u8", "i8", "i64", "u64", "u16"):
+                if span > prim.dmax(r) - prim.dmin(r):
+                    continue
+                b = prim.dmin(r) if (prim.bits_of(r) == 8 or rng.random() < 0.3) else rng.choice([0, -40 if prim.signed(r) else 3])
+                b = max(prim.dmin(r), min(b, prim.dmax(r) - span))
+                reals = sorted({b, b + 1, b + 3, b + span - 2, b + span})
+                shapes.append((r, reals))
+        for r, reals in shapes:
+            vs = decorate(reals, r, rng, rng.choice(["ident", "renames"]), rng.choice(["asc", "shuffle"]), "dec")
+            p = prim.Proj(r, True)
+            probes = sorted({p.to_model(x + d) for x in reals for d in (-1, 0, 1, 2) if prim.tmin(r) <= x + d <= prim.tmax(r)}
+                            | {p.model_tmin(), p.model_tmax()})
+            script = make_script(vs, r, probes, rng, level="light", str_cap=8, pow2=True)
+            cases = []
+            for lab, cfg in kappa_list(False)[:3]:
+                c = self.new_case(r, vs, cfg, script, f"alias:{lab}")
+                c["pow2"] = True
+                cases.append(c)
+            self.add_group("C09", cases, "alias_shapes")
+
     def large(self, sizes):
         rng = self.rng
         for n in sizes:
@@ -697,17 +735,17 @@ def make_script_large(vs, sub, r, probes_model, rng):
         except ValueError:
             x = next(fx for fx in p.far_reals() if p.to_model(fx) == m)
         for f in ("try_from", "try_from_t"):
-            L.append(f"s {f}:{m} call {f} {p.bits(x)}")
+            L.append(f"s tf:{m} call {f} {p.bits(x)}")
     L += truncation_probes(sorted(v["real"] for v in vs), r, p)
     for v in sub:
         m = p.to_model(v["real"])
         for f in ("into", "into_t", "as_str", "display", "debug", "into_str", "next", "next_back"):
-            L.append(f"s {f}:{m} call {f} {p.bits(v['real'])}")
+            L.append(f"s {SIGFAM[f]}:{m} call {f} {p.bits(v['real'])}")
         s = name_of(v)
         for t in (s, s + " ", s[:-1]):
             cp = " ".join(str(ord(c)) for c in t)
             for f in ("from_str", "from_str_t"):
-                L.append(f"s {f}:{h(t)} call {f} {cp}".rstrip())
+                L.append(f"s fs:{h(t)} call {f} {cp}".rstrip())
     L += ["s min call min", "s max call max"] + (["s zip call zip"] if len(vs) <= 5000 else [])
     L += make_script(vs, r, [], rng, level="std", calls=False)
     return L
@@ -737,6 +775,7 @@ def build_plan(tier, seed):
         pl.full_paths()
         pl.config_matrix(n_sparse=10)
         pl.sorted_cfgs(6)
+        pl.alias_shapes()
         pl.perms_reprs(30)
         pl.spellings(40)
         pl.contexts()
@@ -753,6 +792,7 @@ def build_plan(tier, seed):
         pl.full_paths()
         pl.config_matrix(n_sparse=60)
         pl.sorted_cfgs(60)
+        pl.alias_shapes()
         pl.perms_reprs(150)
         pl.spellings(200)
         pl.contexts()
@@ -845,7 +885,7 @@ def write_crate(pl, outdir, cases_per_bin=120, rustflags=True):
                 start = len(src)
                 src += lines
                 mains.append(f"c{c['id']}::g::case")
-                p = prim.Proj(c["repr"])
+                p = prim.Proj(c["repr"], c.get("pow2", False))
                 text = "\n".join(c["script"])
                 bid = h(text, 12)
                 if bid not in blocks:
